@@ -12,11 +12,15 @@ package pedersen
 //@   allocates
 //@   ensures result != nil && result.n == n && result.s == s && result.t == t
 
+// Valid Pedersen parameters (C15): S and T present, in [1, N-1], coprime to N and distinct. ValidateParameters accepts
+// exactly these.
+//@ pred pedvalid(n *saferith.Modulus, s *saferith.Nat, t *saferith.Nat) := n != nil && s != nil && t != nil && natval(s) < natval(n) && coprime(natval(s), natval(n)) && natval(t) < natval(n) && coprime(natval(t), natval(n)) && natval(s) != natval(t)
 //@ func ValidateParameters
 //@   nopanic[C05]
 //@   modifies nothing
 //@   allocates
 //@   ensures result == nil ==> n != nil && s != nil && t != nil
+//@   ensures[C15] (result == nil) == pedvalid(n, s, t)
 
 //@ func (Parameters).Verify
 //@   nopanic[C05]
